@@ -263,6 +263,48 @@ def run(ctx):
         pass
     ctx.floor(rule, 1)
 
+    # --- every site that sizes the proof domain agrees on n = npo2(dimension + 1)
+    rule = "R-C19.SIB.n"
+    sites = 0
+    for f in ctx.prog.fns:
+        if f.body is None or not (f.id.startswith("vdaf::prio2") or f.id.startswith("<vdaf::prio2")) or ctx.prog.is_test_util(f):
+            continue
+        g = None
+        for bi, t in f.body.calls():
+            if t.callee.name != "next_power_of_two":
+                continue
+            g = g or ctx.guards(f)
+            c = g.eb.call_expr(t)
+            sites += 1
+            key = "%s:%s:%s" % (rule, f.id, fmt(c[2][0])[:60])
+            if Bin("Add", Any(), Lit(1), commutative=True)(c[2][0]):
+                ctx.ok(rule, key, "n = (%s).next_power_of_two()" % fmt(c[2][0])[:60], loc="%s:%s" % (f.file, t.line))
+            else:
+                ctx.bad(rule, key, "%s sizes the proof domain with npo2(%s) while the other sites use npo2(dimension + 1): client, server and "
+                                   "constructor disagree for lengths that are a power of two" % (f.id, fmt(c[2][0])[:60]), loc="%s:%s" % (f.file, t.line))
+    if sites < 5:
+        ctx.bad(rule, rule + ":floor", "expected at least 5 proof-domain sizing sites in vdaf::prio2*, found %d" % sites, kind="anchor")
+    ctx.floor(rule, 5)
+
+    # --- the NTT accepts every transform size the constructor admits (2n <= generator_order = 2^NUM_ROOTS of FieldPrio2)
+    rule = "R-C19.SIB.ntt-capacity"
+    try:
+        from rules import c10
+        caps = c10.ntt_capacity(ctx, rule)
+        nr = ctx.prog.const_by_path.get("<fp::FP32 as fp::ops::FieldParameters<u32>>::NUM_ROOTS")
+        need = 1 << int(nr["vs"]) if nr and "vs" in nr else None
+        key = rule + ":plain"
+        if caps is None or need is None:
+            ctx.bad(rule, key, "cannot establish the NTT's size limit (guard not recognised): Prio2 needs transforms of up to 2^20 points")
+        elif caps[0] >= need:
+            ctx.ok(rule, key, "ntt accepts sizes up to %d >= %d = FieldPrio2::generator_order()" % (caps[0], need))
+        else:
+            ctx.bad(rule, key, "the NTT refuses sizes above %d but Prio2::new admits proof domains of up to %d points: the top octave of "
+                               "supported lengths cannot be sharded or verified" % (caps[0], need))
+    except Skip:
+        pass
+    ctx.floor(rule, 1)
+
     rule = "R-C19.S.codec"
     try:
         fe = ctx.fn(rule, name="encode", trait="Encode", self_adt="vdaf::prio2::Prio2VerifierShare")
